@@ -63,6 +63,13 @@ Fault *Kernel::match_fault(CallId c, const std::string &path) {
   return nullptr;
 }
 
+void Kernel::after_syscall() {
+  Proc *p = cp(); if (!p || !p->after_signal) return;
+  int saved = errno; int sig = p->after_signal; p->after_signal = 0;
+  post_signal(p, sig); deliver_signals();
+  errno = saved;
+}
+
 bool generic_fault(Kernel *k, Fault *f) {
   if (f->kind == "kill") { k->note_fault("crash_process"); Proc *p = k->cp(); k->kill_proc(p, 9); return true; /* not reached for self */ }
   if (f->kind == "crash") { k->machine_crash(f->image.empty() ? "random" : f->image); k->back_to_sched_forever(); }
@@ -73,6 +80,7 @@ bool generic_fault(Kernel *k, Fault *f) {
     for (auto &fe : k->cp()->fds) if (fe.of && fe.of->kind == O_PIPE_W && fe.of->pipe && fe.of->pipe->is_fifo) { if (len > 3) len = 3; k->probe("stall_capped_fifo_writer"); }
     k->note_fault("stalled_process"); k->block([] { return false; }, k->clock + len, false); k->deliver_signals(); return true;
   }
+  if (f->kind == "signal_after") { k->note_fault("signal_on_return"); if (k->cp()) k->cp()->after_signal = (int)f->arg; return true; }
   if (f->kind == "signal") { k->note_fault("signal"); k->post_signal(k->cp(), (int)f->arg); k->deliver_signals(); return true; }
   if (f->kind == "clock_fwd") { k->note_fault("clock_jump_fwd"); k->advance_clock_to(k->clock + f->arg); return true; }
   return false;
